@@ -92,7 +92,14 @@ func Solve(script string, dir, name string, timeoutS int, wantModel bool) SolveR
 	go func() { wg.Wait(); close(ch) }()
 	var best SolveResult
 	best.Status = "timeout"
+	anyTimeout := false
+	defer func() {
+		_ = anyTimeout
+	}()
 	for r := range ch {
+		if r.Status == "timeout" {
+			anyTimeout = true
+		}
 		if r.Status == "unsat" || r.Status == "sat" {
 			cancel()
 			// drain in background
@@ -108,6 +115,12 @@ func Solve(script string, dir, name string, timeoutS int, wantModel bool) SolveR
 			}
 			best = r
 		}
+	}
+	if best.Status == "unknown" && anyTimeout {
+		// one solver gave up, another ran out of time: the obligation may just be slow (eligible for the
+		// longer retry), it is not a definite "cannot prove"
+		best.Status = "timeout"
+		best.Output = "unknown from " + best.Solver + ", time-out from another solver\n" + best.Output
 	}
 	return best
 }
